@@ -17,6 +17,7 @@ Inductive which_stage := StActive | StMute | StBoth.
 
 Inductive case :=
 | CContains (ti : tinterval) (is : list inst)
+| CClamp (n lo hi out : Z)
 | CParseTimeRange (st en : string) (out : option rng)
 | CParseRange (k : rkind) (s : string) (out : option rng)
 | CMutes (m : intervals) (tzt : list (string * Z)) (names : list string) (now : Z) (out : res (bool * list string))
@@ -52,12 +53,13 @@ Definition stage_model (w : which_stage) (m : intervals) (tzt : list (string * Z
 
 Inductive shown :=
 | ShInsts (l : list (civil * Z * bool))
-| ShR (o : option rng) | ShM (o : res (bool * list string))
+| ShZ (z : Z) | ShR (o : option rng) | ShM (o : res (bool * list string))
 | ShS (o : bool * option string * (list string * bool)).
 
 Definition show_case (c : case) : shown :=
   match c with
   | CContains ti is_ => ShInsts (map (model_inst ti) is_)
+  | CClamp n lo hi _ => ShZ (clamp n lo hi)
   | CParseTimeRange st en _ => ShR (parse_time_range st en)
   | CParseRange k s _ => ShR (parse_range k s)
   | CMutes m tzt names now _ => ShM (mutes (tz_table tzt) m names now)
@@ -70,6 +72,7 @@ Definition check_case (c : case) : bool :=
   match c with
   | CContains ti is_ =>
       forallb (fun i => beq (model_inst ti i) (i_go i, i_go_dim i, i_go_in i)) is_
+  | CClamp n lo hi out => clamp n lo hi =? out
   | CParseTimeRange st en out => beq (parse_time_range st en) out
   | CParseRange k s out => beq (parse_range k s) out
   | CMutes m tzt names now out => beq (mutes (tz_table tzt) m names now) out
@@ -106,6 +109,7 @@ Definition prop_case (c : case) : bool :=
         let c := civil_fields local in
         fields_ok local c &&
         (negb (ti_proper ti && ti_valid ti) || beq (contains_fields ti c) (spec_fields ti c))) is_
+  | CClamp n lo hi _ => negb (lo <=? hi) || ((lo <=? clamp n lo hi) && (clamp n lo hi <=? hi))
   | CParseTimeRange st en _ =>
       match parse_time_range st en with Some r => valid_time r | None => true end
   | CParseRange k s _ =>
